@@ -81,6 +81,7 @@ def fingerprint_url(url, unsplit=True, strip_suffix=False, platform_aware=False)
         unsplit=False,
         query_item_filter=lang_query_item_filter,
         platform_aware=platform_aware,
+        lowercase=True,
     )
     _, netloc, path, query, fragment = splitted
 
